@@ -26,7 +26,7 @@ pub struct SItem {
     pub ann: Option<(Raw, u64)>,
 }
 impl SItem {
-    fn core(&self) -> (Key, u8, Option<u64>, Option<u64>) {
+    pub fn core(&self) -> (Key, u8, Option<u64>, Option<u64>) {
         (self.raw.key(), self.tag, self.l, self.r)
     }
 }
@@ -139,6 +139,13 @@ pub fn check_ro<P: SimPrefix, L: SimVal, Rr: SimVal>(ctx: &mut Ctx, a: &TrieView
         chk!(ctx, "C05", !c, "diverge:union", "union yields more than {cap2} items; {desc}");
         chk!(ctx, "C05", cores(&got) == cores(&exp), format!("union:items:{relsig}"), "union yields {:?}, expected {:?}; {desc}", got, exp);
         chk!(ctx, "C05", f, "fused:union", "union yields an item after None; {desc}");
+        if ctx.is("C05") && exp.len() >= 2 {
+            let jj = exp.len() / 2;
+            let r = ctx.obs("C05", "union(consumers)", || crate::packs::consumer_checks(|| a.union(b.clone()), |x| union_item(&x).0.core(), &cores(&exp), jj, 1))?;
+            if let Err((m, d)) = r {
+                chk!(ctx, "C05", false, format!("consumer:union:{m}"), "union: {d}; {desc}");
+            }
+        }
         if cores(&got) == cores(&exp) {
             let ok = got.iter().zip(exp.iter()).all(|(g, e)| g.raw == e.raw || (g.tag == 0 && eb.iter().any(|x| x.raw == g.raw)));
             chk!(ctx, "C05", ok, "union:stored-prefix", "union yields prefixes {:?}, stored as {:?}; {desc}", got.iter().map(|x| x.raw).collect::<Vec<_>>(), exp.iter().map(|x| x.raw).collect::<Vec<_>>());
@@ -197,6 +204,13 @@ pub fn check_ro<P: SimPrefix, L: SimVal, Rr: SimVal>(ctx: &mut Ctx, a: &TrieView
         chk!(ctx, "C06", !c, "diverge:intersection", "intersection yields more than {cap2} items; {desc}");
         chk!(ctx, "C06", cores(&got) == cores(&exp), format!("intersection:items:{relsig}"), "intersection yields {:?}, expected {:?}; {desc}", got, exp);
         chk!(ctx, "C06", f, "fused:intersection", "intersection yields an item after None; {desc}");
+        if ctx.is("C06") && exp.len() >= 2 {
+            let jj = exp.len() / 2;
+            let r = ctx.obs("C06", "intersection(consumers)", || crate::packs::consumer_checks(|| a.intersection(b.clone()), |(p, l, r)| (p.raw().key(), l.snap(), r.snap()), &exp.iter().map(|x| (x.raw.key(), x.l.unwrap_or(0), x.r.unwrap_or(0))).collect::<Vec<_>>(), jj, 1))?;
+            if let Err((m, d)) = r {
+                chk!(ctx, "C06", false, format!("consumer:intersection:{m}"), "intersection: {d}; {desc}");
+            }
+        }
         for g in &got {
             let (ra, rb) = (ea.iter().find(|x| x.key == g.raw.key()).map(|x| x.raw), eb.iter().find(|x| x.key == g.raw.key()).map(|x| x.raw));
             chk!(ctx, "C18", Some(g.raw) == ra || Some(g.raw) == rb, "repr:intersection", "intersection item reports prefix {}, stored representations are {:?} / {:?}", g.raw, ra, rb);
@@ -216,6 +230,13 @@ pub fn check_ro<P: SimPrefix, L: SimVal, Rr: SimVal>(ctx: &mut Ctx, a: &TrieView
         chk!(ctx, "C07", !c, "diverge:difference", "difference yields more than {cap2} items; {desc}");
         chk!(ctx, "C07", cores(&got) == cores(&exp), format!("difference:items:{relsig}"), "difference yields {:?}, expected {:?}; {desc}", got, exp);
         chk!(ctx, "C07", f, "fused:difference", "difference yields an item after None; {desc}");
+        if ctx.is("C07") && exp.len() >= 2 {
+            let jj = exp.len() / 2;
+            let r = ctx.obs("C07", "difference(consumers)", || crate::packs::consumer_checks(|| a.difference(b.clone()), |d| (d.prefix.raw().key(), d.value.snap()), &exp.iter().map(|x| (x.raw.key(), x.l.unwrap_or(0))).collect::<Vec<_>>(), jj, 1))?;
+            if let Err((m, d)) = r {
+                chk!(ctx, "C07", false, format!("consumer:difference:{m}"), "difference: {d}; {desc}");
+            }
+        }
         if cores(&got) == cores(&exp) {
             chk!(ctx, "C07", got.iter().map(|x| x.raw).collect::<Vec<_>>() == exp.iter().map(|x| x.raw).collect::<Vec<_>>(), "difference:stored-prefix", "difference yields prefixes {:?}, a stores them as {:?}; {desc}", got.iter().map(|x| x.raw).collect::<Vec<_>>(), exp.iter().map(|x| x.raw).collect::<Vec<_>>());
         }
@@ -242,6 +263,13 @@ pub fn check_ro<P: SimPrefix, L: SimVal, Rr: SimVal>(ctx: &mut Ctx, a: &TrieView
         chk!(ctx, "C07", !c, "diverge:covering_difference", "covering_difference yields more than {cap2} items; {desc}");
         chk!(ctx, "C07", cores(&got) == cores(&exp), format!("covering_difference:items:{relsig}"), "covering_difference yields {:?}, expected {:?}; {desc}", got, exp);
         chk!(ctx, "C07", f, "fused:covering_difference", "covering_difference yields an item after None; {desc}");
+        if ctx.is("C07") && exp.len() >= 2 {
+            let jj = exp.len() / 2;
+            let r = ctx.obs("C07", "covering_difference(consumers)", || crate::packs::consumer_checks(|| a.covering_difference(b.clone()), |(p, l)| (p.raw().key(), l.snap()), &exp.iter().map(|x| (x.raw.key(), x.l.unwrap_or(0))).collect::<Vec<_>>(), jj, 1))?;
+            if let Err((m, d)) = r {
+                chk!(ctx, "C07", false, format!("consumer:covering_difference:{m}"), "covering_difference: {d}; {desc}");
+            }
+        }
         if cores(&got) == cores(&exp) {
             chk!(ctx, "C07", got.iter().map(|x| x.raw).collect::<Vec<_>>() == exp.iter().map(|x| x.raw).collect::<Vec<_>>(), "covering_difference:stored-prefix", "covering_difference yields prefixes {:?}, a stores them as {:?}; {desc}", got.iter().map(|x| x.raw).collect::<Vec<_>>(), exp.iter().map(|x| x.raw).collect::<Vec<_>>());
         }
